@@ -95,6 +95,7 @@ Definition frozen_ok (tg : tags) (h : mheap) (c : mcell) : Prop :=
   | CBytes _ => True
   | CRdr (RdBytes s _) => bslice_ok tg h s
   | CRdr (RdSect p _ _ _ _) => tg p = TFrozen /\ exists rd, hget h p = Some (CRdr rd)
+  | CRdr (RdCursor p _) => tg p = TFrozen /\ exists rd, hget h p = Some (CRdr rd)
   | CPtr _ => False
   end.
 
@@ -150,6 +151,7 @@ Definition rdr_eqv (a b : rdr) : Prop :=
   match a, b with
   | RdBytes s _, RdBytes s' _ => s = s'
   | RdSect p _ base _ lim, RdSect p' _ base' _ lim' => p = p' /\ base = base' /\ lim = lim'
+  | RdCursor src _, RdCursor src' _ => src = src'
   | _, _ => False
   end.
 
@@ -299,6 +301,8 @@ Section Stab.
       destruct r, r'; cbn in E; try contradiction.
       + subst. cbn in *. auto using bslice_ok_ext.
       + destruct E as (-> & -> & ->). cbn in *. destruct Hc as [Hp [rd Hr]].
+        split; [apply HE; assumption|]. destruct (ext_rdr _ _ _ _ _ _ HE Hp Hr) as [r'' [Hr'' _]]. eauto.
+      + subst. cbn in *. destruct Hc as [Hp [rd Hr]].
         split; [apply HE; assumption|]. destruct (ext_rdr _ _ _ _ _ _ HE Hp Hr) as [r'' [Hr'' _]]. eauto.
   Qed.
 End Stab.
